@@ -21,6 +21,8 @@ pub enum OpResult {
     NoAck,
     RxComplete,
     SessionExpired,
+    /// async: the application dropped the `join()` / `send()` future at a scripted wait
+    Cancelled,
     RadioErr,
     NotJoined,
     /// the uplink was refused because it does not fit a frame
@@ -228,7 +230,8 @@ fn drive<F: Future>(env: &EnvRef, fut: F) -> Option<F::Output> {
         match fut.as_mut().poll(&mut cx) {
             Poll::Ready(v) => return Some(v),
             Poll::Pending => {
-                if env.borrow().rxc_idle {
+                let e = env.borrow();
+                if e.rxc_idle || e.cancel_hit {
                     return None;
                 }
             }
@@ -316,6 +319,7 @@ impl<R: WorldRadio, const N: usize, const D: usize> Dut for AsyncDut<R, N, D> {
             Ok(Some(Ok(async_device::JoinResponse::NoJoinAccept))) => OpResult::NoJoinAccept,
             Ok(Some(Err(async_device::Error::Radio(_)))) => OpResult::RadioErr,
             Ok(Some(Err(async_device::Error::Mac(_)))) => OpResult::NotJoined,
+            Ok(None) if env.borrow().cancel_hit => OpResult::Cancelled,
             Ok(None) => OpResult::Unexpected("join stayed pending".into()),
             Err(e) => e,
         }
@@ -325,6 +329,7 @@ impl<R: WorldRadio, const N: usize, const D: usize> Dut for AsyncDut<R, N, D> {
         let dev = &mut self.dev;
         match guarded(&env, || drive(&env, dev.send(data, port, confirmed))) {
             Ok(Some(r)) => Self::map_send(r),
+            Ok(None) if env.borrow().cancel_hit => OpResult::Cancelled,
             Ok(None) => OpResult::Unexpected("send stayed pending".into()),
             Err(e) => e,
         }
